@@ -15,14 +15,6 @@ func init() {
 		runC09)
 }
 
-type c09Row struct {
-	reason string
-}
-
-// c09Table: reviewed sites that are safe for a reason the engine cannot derive.
-// Key: function | kind | description (terms, no positions).
-var c09Table = map[string]c09Row{}
-
 func c09Key(s PanicSite) string { return FuncKey(s.Fn) + " | " + s.Kind + " | " + s.Desc }
 
 func runC09(c *Ctx) {
@@ -102,9 +94,13 @@ func runC09(c *Ctx) {
 			d := c09Discharge(c, facts(), s, via)
 			key := c09Key(s)
 			if !d.OK {
-				if row, ok := c09Table[key]; ok {
-					usedRows[key] = true
-					d = Discharge{true, "reviewed table row: " + row.reason, ""}
+				if i, row := c09FindRow(s); row != nil {
+					usedRows[fmt.Sprint(i)] = true
+					if ok, why := c09RowHolds(p, facts(), s, row, via); ok {
+						d = Discharge{true, "reviewed table row: " + row.reason + why, ""}
+					} else {
+						d = Discharge{false, "", "table row for this site exists but its required facts no longer hold: " + why + " — " + d.Need}
+					}
 				}
 			}
 			chain := ""
@@ -116,11 +112,12 @@ func runC09(c *Ctx) {
 	}
 	c.Count("bounds checks proved by the compiler in reachable functions", proven)
 	c.Count("panic-capable sites examined", nSites)
-	for k := range c09Table {
-		if !usedRows[k] {
-			c.Notes = append(c.Notes, "table row no longer matches any site (stale, harmless): "+k)
+	for i, row := range c09Table {
+		if !usedRows[fmt.Sprint(i)] {
+			c.Notes = append(c.Notes, "table row no longer matches any site (stale, harmless): "+row.fn+" | "+row.kind+" | "+row.desc)
 		}
 	}
+	c.Count("reviewed table rows", len(c09Table))
 
 	// ---- validators answer Reject/Ignore on error edges
 	acc, _ := p.constValue("pkg/p2p", "ValidationAccept")
@@ -153,7 +150,12 @@ func runC09(c *Ctx) {
 				continue
 			}
 			for _, fc := range fallible {
-				ok, _ := ff.NilErrAt(r.Block(), Matcher{"this call", func(x *Term) bool { return x.V == fc.Value() }})
+				ok, _ := ff.NilErrAt(r.Block(), Matcher{"this call", func(x *Term) bool {
+					if x.V == fc.Value() {
+						return true
+					}
+					return x.Op == "extract" && len(x.Args) == 1 && x.Args[0].V == fc.Value()
+				}})
 				c.Require("C09.validator-rejects-on-error", FuncKey(e.Fn)+" ⇒ "+CalleeName(fc.Common()), p.InstrPos(r), "Accept is returned only when every decode/validate step returned nil", ok, "")
 			}
 		}
@@ -219,6 +221,31 @@ func c09Discharge(c *Ctx, ff *FuncFacts, s PanicSite, via map[*ssa.Function][]st
 				}
 				if okAll {
 					return Discharge{true, "generated codec: the creator passed to " + call.Sym + " returns exactly " + typeName(x.AssertedType), ""}
+				}
+			}
+		}
+		// container/heap: the popped value was pushed in this very function with the asserted type
+		if xt.Op == "call" && xt.Sym == "container/heap.Pop" {
+			pushes, good := 0, true
+			for _, call := range AllCalls(x.Parent()) {
+				n := CalleeName(call.Common())
+				if n == "container/heap.Push" {
+					pushes++
+					if mi, ok := call.Common().Args[1].(*ssa.MakeInterface); !ok || typeName(mi.X.Type()) != typeName(x.AssertedType) {
+						good = false
+					}
+				}
+			}
+			if pushes > 0 && good {
+				return Discharge{true, fmt.Sprintf("heap idiom: all %d heap.Push calls in this function push %s", pushes, typeName(x.AssertedType)), ""}
+			}
+			// the heap is a typed slice whose Pop returns its element type
+			if len(xt.Args) == 1 {
+				ht := xt.Args[0].V
+				if ht != nil {
+					if elem := heapElemType(stripConv(ht).Type()); elem != "" && elem == typeName(x.AssertedType) {
+						return Discharge{true, "heap idiom: the heap's Pop method returns its element type " + elem, ""}
+					}
 				}
 			}
 		}
@@ -356,11 +383,65 @@ func checkJSONNil(c *Ctx, fn *ssa.Function) {
 							guarded = true
 						}
 					}
+					if !guarded {
+						guarded = nilCheckedByHelper(ff, use.Block(), lt)
+					}
 					c.Require("C09.json-nil-pointer", FuncKey(fn)+": request."+fname, p.InstrPos(use), "a pointer field filled from client JSON is dereferenced only under a non-nil fact (an absent field leaves it nil; the handler goroutine has no recover)", guarded, "")
 				}
 			}
 		}
 	}
+}
+
+// nilCheckedByHelper: a dominating fact  H(ptr) == nil  where helper H returns a
+// non-nil error whenever its parameter is nil.
+func nilCheckedByHelper(ff *FuncFacts, blk *ssa.BasicBlock, ptr *Term) bool {
+	for _, f := range ff.FactsAt(blk) {
+		if !(f.IsCmp && f.Op.String() == "==" && f.R.Sym == "nil" && f.L.Op == "call" && len(f.L.Args) == 1 && f.L.Args[0].String() == ptr.String()) {
+			continue
+		}
+		cl, ok := f.L.V.(*ssa.Call)
+		if !ok {
+			continue
+		}
+		h := cl.Common().StaticCallee()
+		if h == nil || len(h.Blocks) == 0 {
+			continue
+		}
+		hf := factsOf(h)
+		good := true
+		n := 0
+		for _, r := range Returns(h) {
+			if classifyReturn(hf, r) != RetNil {
+				continue
+			}
+			n++
+			okp := false
+			for _, g := range hf.FactsAt(r.Block()) {
+				if g.IsCmp && g.Op.String() == "!=" && g.L.String() == "p0" && g.R.Sym == "nil" {
+					okp = true
+				}
+			}
+			if !okp {
+				good = false
+			}
+		}
+		if good && n > 0 {
+			return true
+		}
+	}
+	return false
+}
+
+// heapElemType: for *H where H is a slice type implementing heap.Interface, the element type name.
+func heapElemType(t types.Type) string {
+	if p, ok := t.Underlying().(*types.Pointer); ok {
+		t = p.Elem()
+	}
+	if s, ok := t.Underlying().(*types.Slice); ok {
+		return typeName(s.Elem())
+	}
+	return ""
 }
 
 // methodDerefsReceiver: does the method touch *receiver (any field access) on every path? Conservative: any FieldAddr on the receiver.
